@@ -409,6 +409,14 @@ func verifQM(args []string) string {
 			if err1 != nil || err2 != nil || !ok {
 				return "!badop"
 			}
+			// what WriteTo itself does to the record is observed: the exported method stamps it with time.Now()
+			// (years after the case's instants); only a record it really refreshed (or created) is then re-stamped
+			// with the instant of the case. A record WriteTo left alone keeps its old instant and heap position.
+			var seenBefore time.Time
+			idx, had := inner.byAddr[verifAddr(a)]
+			if had {
+				seenBefore = inner.byAge[idx].LastSeen
+			}
 			n, werr := conn.WriteTo(p, verifAddr(a))
 			for k := range p {
 				p[k] ^= 0xa5 // the caller owns p again
@@ -416,7 +424,12 @@ func verifQM(args []string) string {
 			if werr != nil {
 				res = "E"
 			} else {
-				idOf(inner.SendQueue(verifAddr(a), now)) // the record WriteTo touched, at the case's instant
+				idx2, has := inner.byAddr[verifAddr(a)]
+				if has && had && inner.byAge[idx2].LastSeen.Equal(seenBefore) {
+					idOf(inner.byAge[idx2].SendQueue) // accepted, but the record was not refreshed by WriteTo
+				} else {
+					idOf(inner.SendQueue(verifAddr(a), now)) // the record WriteTo touched, at the case's instant
+				}
 				res = "n" + strconv.Itoa(n)
 			}
 		case 'o':
@@ -429,8 +442,19 @@ func verifQM(args []string) string {
 			if err1 != nil || !ok {
 				return "!badop"
 			}
+			// as for w: only a record OutgoingQueue itself refreshed (or created) is re-stamped with the case's instant
+			var seenBefore time.Time
+			idx, had := inner.byAddr[verifAddr(a)]
+			if had {
+				seenBefore = inner.byAge[idx].LastSeen
+			}
 			och := conn.OutgoingQueue(verifAddr(a))
-			ch := inner.SendQueue(verifAddr(a), now)
+			var ch chan []byte
+			if idx2, has := inner.byAddr[verifAddr(a)]; has && had && inner.byAge[idx2].LastSeen.Equal(seenBefore) {
+				ch = inner.byAge[idx2].SendQueue
+			} else {
+				ch = inner.SendQueue(verifAddr(a), now)
+			}
 			idOf(ch)
 			if (<-chan []byte)(ch) != och {
 				return "!queue-identity"
